@@ -31,6 +31,8 @@ pub fn origin_url(name: &str) -> &'static str {
         "o.ip" => "https://192.168.7.7",
         // an internationalised host, given in punycode and as typed (the URL parser turns both into punycode; the
         // origin a relying party sees is the ASCII serialisation)
+        "o.q1" => "https://adobe.com",
+        "o.q2" => "https://account.hyatt.com",
         "o.idn" => "https://xn--bcher-kva.example",
         "o.idnu" => "https://b\u{fc}cher.example",
         // Android application origins: the name stands for the asset-link host (see `origin_of`)
@@ -55,6 +57,10 @@ fn alg_of(name: &str) -> coset::iana::Algorithm {
         "ES256" => coset::iana::Algorithm::ES256,
         "RS256" => coset::iana::Algorithm::RS256,
         "EdDSA" => coset::iana::Algorithm::EdDSA,
+        // identifiers that are not signature algorithms (non-negative COSE values): unsupported entries like any other
+        "HMAC" => coset::iana::Algorithm::HMAC_256_256,
+        "A128GCM" => coset::iana::Algorithm::A128GCM,
+        "zero" => coset::iana::Algorithm::Reserved,
         _ => coset::iana::Algorithm::ES512,
     }
 }
@@ -184,6 +190,11 @@ fn werr_name(e: &WebauthnError) -> (String, u8) {
         WebauthnError::AuthenticatorError(b) => ("AuthenticatorError".to_string(), *b),
         other => (format!("{other:?}"), 0),
     }
+}
+
+/// the extra client-data members of a ceremony: mode "extra" a nested object, "extra0" an object without members
+fn extra_of(mode: &str) -> Value {
+    if mode == "extra0" { json!({}) } else { extra_value() }
 }
 
 fn extra_value() -> Value {
@@ -331,9 +342,9 @@ fn register(run: &mut Run, req: &Value) -> Value {
     };
     let mut client = run.client.take().unwrap();
     let sh = run.sh.clone();
-    let extra = extra_value();
+    let extra = extra_of(&p.mode);
     let out = util::catch(|| match p.mode.as_str() {
-        "extra" => drive(client.register(p.origin.as_origin(), options, DefaultClientDataWithExtra(extra.clone())), &sh),
+        "extra" | "extra0" => drive(client.register(p.origin.as_origin(), options, DefaultClientDataWithExtra(extra.clone())), &sh),
         m if m.starts_with("hash") => drive(client.register(p.origin.as_origin(), options, DefaultClientDataWithCustomHash(p.custom_hash.clone())), &sh),
         _ => drive(client.register(p.origin.as_origin(), options, DefaultClientData), &sh),
     });
@@ -350,7 +361,7 @@ fn register(run: &mut Run, req: &Value) -> Value {
                                             ("webauthn error (JSON)".into(), serde_json::to_vec(&e).unwrap_or_default())]);
             json!({"ev": "End", "d": d})
         }
-        Ok(Outcome::Done(Ok(c))) => json!({"ev": "End", "d": judge_register(run, &p, &c, if p.mode == "extra" { Some(&extra) } else { None })}),
+        Ok(Outcome::Done(Ok(c))) => json!({"ev": "End", "d": judge_register(run, &p, &c, if p.mode.starts_with("extra") { Some(&extra) } else { None })}),
     }
 }
 
@@ -480,9 +491,9 @@ fn authenticate(run: &mut Run, req: &Value) -> Value {
     };
     let mut client = run.client.take().unwrap();
     let sh = run.sh.clone();
-    let extra = extra_value();
+    let extra = extra_of(&p.mode);
     let out = util::catch(|| match p.mode.as_str() {
-        "extra" => drive(client.authenticate(p.origin.as_origin(), options, DefaultClientDataWithExtra(extra.clone())), &sh),
+        "extra" | "extra0" => drive(client.authenticate(p.origin.as_origin(), options, DefaultClientDataWithExtra(extra.clone())), &sh),
         m if m.starts_with("hash") => drive(client.authenticate(p.origin.as_origin(), options, DefaultClientDataWithCustomHash(p.custom_hash.clone())), &sh),
         _ => drive(client.authenticate(p.origin.as_origin(), options, DefaultClientData), &sh),
     });
@@ -499,7 +510,7 @@ fn authenticate(run: &mut Run, req: &Value) -> Value {
                                             ("webauthn error (JSON)".into(), serde_json::to_vec(&e).unwrap_or_default())]);
             json!({"ev": "End", "d": d})
         }
-        Ok(Outcome::Done(Ok(c))) => json!({"ev": "End", "d": judge_authenticate(run, &p, &c, if p.mode == "extra" { Some(&extra) } else { None })}),
+        Ok(Outcome::Done(Ok(c))) => json!({"ev": "End", "d": judge_authenticate(run, &p, &c, if p.mode.starts_with("extra") { Some(&extra) } else { None })}),
     }
 }
 
@@ -651,7 +662,13 @@ fn u2f(run: &mut Run, op: &str, req: &Value) -> Value {
                 _ => {}
             }
         }
-        let request = AuthenticationRequest { parameter: AuthenticationParameter::EnforceUserPresence, challenge, application: app, key_handle: handle.clone() };
+        // the control byte of the request (0x03 enforce presence and sign / 0x07 check only / 0x08 do not enforce)
+        let parameter = match req["ctl"].as_str().unwrap_or("enforce") {
+            "check" => AuthenticationParameter::CheckOnly,
+            "dont" => AuthenticationParameter::DontEnforceUserPresence,
+            _ => AuthenticationParameter::EnforceUserPresence,
+        };
+        let request = AuthenticationRequest { parameter, challenge, application: app, key_handle: handle.clone() };
         let out = util::catch(|| drive(U2fApi::authenticate(client.authenticator(), request, counter, flags), &sh));
         run.client = Some(client);
         match out {
